@@ -153,12 +153,22 @@ Theorem Adv_wf_session : forall own ks quit acts,
 Proof. exact adv_wf_session. Qed.
 
 (* C04 and C08 for applications that use the stock dialogs (instances of the general theorems) *)
+(* the hypothesis of C04 / C08 about setup() with commands concerns the application's own screens only: the stock
+   dialogs' setup() runs no commands *)
+Theorem Adv_setup_hypothesis : forall specs own ks,
+  (forall n, specs n = nth n (own ++ map adv_spec ks) default_spec) ->
+  (forall sp, In sp own -> In false (sc_setup sp) -> sc_setup_cmds sp = []) ->
+  failing_setup_plain specs.
+Proof. exact adv_failing_setup_plain. Qed.
+
 Theorem Adv_C04_covered : forall specs own ks typed quit run_empty fuel acts,
+  failing_setup_plain specs ->
   (forall n, specs n = nth n (own ++ map adv_spec ks) default_spec) ->
   sok chk_C04 typed (rev (trace (snd (app_run_all specs (own ++ map adv_spec ks) typed quit run_empty fuel acts)))) = true.
 Proof. exact adv_C04. Qed.
 
 Theorem Adv_C08_covered : forall specs own ks typed quit run_empty fuel acts,
+  failing_setup_plain specs ->
   (forall n, specs n = nth n (own ++ map adv_spec ks) default_spec) ->
   forallb (spec_wf (length own + length ks)) own = true ->
   match quit with Some q => q < length own + length ks | None => True end ->
@@ -193,7 +203,7 @@ Definition ex2_specl : list screen_spec :=
   [ {| sc_setup := []; sc_refresh := []; sc_show := []; sc_closed := [];
        sc_input := [([49%N], ([SForceQuit], RKey [113%N]))]; sc_input_default := ([], None);
        sc_prompt_none := false; sc_input_required := true; sc_no_separator := false; sc_skip_check := false;
-       sc_pages := 0; sc_answer0 := AnsNoAttr; sc_custom := [] |} ] ++ map adv_spec [KYesNo].
+       sc_pages := 0; sc_answer0 := AnsNoAttr; sc_custom := []; sc_setup_cmds := [] |} ] ++ map adv_spec [KYesNo].
 Definition ex2_run :=
   app_run_all (fun n => nth n ex2_specl default_spec) ex2_specl [Some [49%N]; Some s_yes] (Some 1) false 3000
               [SACmds [SSchedule 0 0]; SARun].
@@ -227,3 +237,4 @@ Print Assumptions Adv_wf_extend.
 Print Assumptions Adv_wf_session.
 Print Assumptions Adv_C04_covered.
 Print Assumptions Adv_C08_covered.
+Print Assumptions Adv_setup_hypothesis.
